@@ -43,7 +43,7 @@ def install(ctx, lentil):
 
 def workload(ctx, lentil):
     rng = ctx.rng
-    n = 150 if ctx.tier == 'quick' else 1000
+    n = ctx.count(150, 1000)
     hi = 24 if ctx.tier == 'quick' else 48
     for i in range(n):
         wl, z, dx, du, os_ = gen.optics(rng)
